@@ -121,7 +121,9 @@ Proof.
     { apply erase_foldT. intros s0 p. apply node_detach_e. }
     rewrite <- H4. destruct r4 as [[s4 px]| |]; cbn [erase]; try reflexivity.
     destruct arg.
-    + rewrite erase_bindT_ok. apply file_initialize_row_e.
+    + rewrite erase_bindT_ok.
+      pose proof (file_initialize_row_e cr cdet (snd k) f s4) as H5.
+      destruct (file_initialize_row_t idf cr cdet (snd k) f s4) as [[s5 l5]| |]; cbn [erase bindT] in *; exact H5.
     + reflexivity.
     + reflexivity.
   - destruct arg.
